@@ -318,6 +318,45 @@ def size_lies(ctx, binary):
     ctx.cov["size_lies"] = len(cases)
 
 
+def rewrite_over_damage(ctx, binary):
+    """Loose.tla: after a successful write the object is readable under the returned id - also when a damaged file (truncated by a
+    crash) already sits at that path: write, cut the file, write the same content again, read."""
+    tdir = os.path.join(ctx.work, "rewrite")
+    os.makedirs(tdir, exist_ok=True)
+    n = 0
+    for size in (0, 1, 57, 64, 5000):
+        body = os.path.join(ctx.work, "rw-body-%d" % size)
+        with open(body, "wb") as f:
+            f.write(bytes((j * 13) % 251 for j in range(size)))
+        for mode in ("buf", "stream"):
+            w = {"op": "write", "dir": tdir, "kind": "blob", "body_path": body, "mode": mode}
+            r = ctx.harness(binary, [w])[0]
+            if "got" not in r or "id" not in r["got"]:
+                raise ToolError("initial write failed: %s" % json.dumps(r)[:200])
+            oid = r["got"]["id"]
+            path = os.path.join(tdir, oid[:2], oid[2:])
+            L = os.path.getsize(path)
+            for keep in sorted({0, L // 2, L - 1}):
+                os.chmod(path, 0o644)
+                with open(path, "r+b") as f:
+                    f.truncate(keep)
+                r2 = ctx.harness(binary, [w, {"op": "read", "dir": tdir, "id": oid, "place": None, "out": os.path.join(ctx.work, "rw-out.bin"), "handle": True}])
+                n += 1
+                ctx.nontrivial(("rewrite", size, mode, keep))
+                case = {"op": "rewrite-over-damage", "size": size, "mode": mode, "file_len": L, "kept": keep}
+                if "got" not in r2[0] or r2[0]["got"].get("id") != oid:
+                    ctx.violation({"kind": "rewrite", "case": case, "classes": ["rewrite"], "result": r2[0], "what": "writing the object again over a damaged file failed"})
+                    continue
+                g = r2[1].get("got", {})
+                f_ = g.get("find")
+                if not (isinstance(f_, dict) and f_.get("size") == size):
+                    ctx.violation({"kind": "rewrite", "case": case, "classes": ["rewrite"], "observed": f_,
+                                   "what": "write() returned the id, but the object cannot be read (a file cut to %d of %d bytes was in its place): %s" % (keep, L, json.dumps(f_)[:160])})
+                # leave an intact file for the next round
+                ctx.harness(binary, [w])
+    ctx.cov["rewrites_over_damaged_files"] = n
+
+
 def git_typed_objects(ctx, tmpl, gdir):
     """valid trees, commits and tags of sizes around the header buffer, made by git"""
     env = git_env(gdir, tmpl)
@@ -402,6 +441,7 @@ def run(ctx):
                 src_git.append((o, gfiles[(gi[:2], gi[2:])]))
     flush(ctx)
     size_lies(ctx, binary)
+    rewrite_over_damage(ctx, binary)
     n1 = truncations(ctx, binary, tmpl, src_gix, "gix-written")
     n2 = truncations(ctx, binary, tmpl, src_git, "git-written")
     ctx.cov["truncations"] = {"gix-written": n1, "git-written": n2, "rejected": flush(ctx)}
